@@ -508,6 +508,7 @@ type crashAnswer struct {
 	tw                  [][]int // per flush of the history: `*` over the flush's time window
 	tc                  []int   // … `* | stats count` over it
 	col                 [][]int // per extra column: `<col>=*`
+	hang                string  // the query that never returned (confirmed by a second, solitary run with a longer limit)
 }
 
 type crashSfmFile struct {
@@ -659,9 +660,22 @@ func (h *crashHist) recordOK(rec map[string]interface{}) (vid int, ok bool, why 
 	return vid, true, ""
 }
 
-func runChildB(h *crashHist, dir string) (a crashAnswer) {
+// a query that has not returned after crashQueryLimit seconds is taken to spin for ever only when a second run of the
+// restarted process — alone on its slot, with three times the limit — stalls at a query again
+const crashQueryLimit = 8
+
+func runChildB(h *crashHist, dir string) crashAnswer {
+	sfm, sm := crashMetaState(dir) // before the restarted process touches the directory
+	a := runChildBOnce(h, dir, crashQueryLimit)
+	if a.hang != "" {
+		a = runChildBOnce(h, dir, 3*crashQueryLimit)
+	}
+	a.sfm, a.sm = sfm, sm
+	return a
+}
+
+func runChildBOnce(h *crashHist, dir string, limitS int) (a crashAnswer) {
 	a.next = -1
-	a.sfm, a.sm = crashMetaState(dir)
 	before := segFiles(dir)
 	var in bytes.Buffer
 	lo, hi := e2eBase-1000, e2eBase+1000000
@@ -690,7 +704,7 @@ func runChildB(h *crashHist, dir string) (a crashAnswer) {
 	q("* | stats count")
 	cmd := exec.Command(os.Args[0], "e2eworker")
 	cmd.Stdin = &in
-	cmd.Env = childEnv("VERIF_DATA_DIR="+filepath.Join(dir, "d"), "VERIF_WAIT_SYNC=1")
+	cmd.Env = childEnv("VERIF_DATA_DIR="+filepath.Join(dir, "d"), "VERIF_WAIT_SYNC=1", "VERIF_QUERY_TIMEOUT_S="+strconv.Itoa(limitS))
 	var ob, eb bytes.Buffer
 	cmd.Stdout, cmd.Stderr = &ob, &eb
 	if err := cmd.Run(); err != nil {
@@ -718,6 +732,11 @@ func runChildB(h *crashHist, dir string) (a crashAnswer) {
 			return
 		}
 		rs = append(rs, r)
+	}
+	if n := len(rs); n > 0 && n <= len(names) && rs[n-1].Err == "query-never-returned" {
+		a.hang = names[n-1]
+		a.errs = append(a.errs, fmt.Sprintf("hang: query %q did not return within %d s", names[n-1], limitS))
+		return
 	}
 	if len(rs) != len(names) {
 		a.errs = append(a.errs, fmt.Sprintf("startup: %d answers instead of %d", len(rs), len(names)))
@@ -866,6 +885,9 @@ func (h *crashHist) sumSet(sum uint64) string {
 }
 
 func (a *crashAnswer) out(h *crashHist) string {
+	if a.hang != "" {
+		return "never-returns"
+	}
 	post := make([]int, 0, len(a.post))
 	hasN := false
 	for _, v := range a.post {
@@ -962,6 +984,10 @@ func checkPoint(h *crashHist, p crashPoint, a *crashAnswer) []PropFail {
 			seen[sig] = true
 			fails = append(fails, PropFail{Sig: sig, Msg: where + ": " + msg})
 		}
+	}
+	if a.hang != "" {
+		addPlain("crash/query-never-returns", fmt.Sprintf("after the restart the search %q never returns (it still spins after %d s, in two runs): a block of the flush in progress straddles the start its segment advertises, the record searcher keeps its older records for a round that never comes", a.hang, 3*crashQueryLimit))
+		return fails
 	}
 	for v := range a.dropped {
 		if inInflight(v) {
